@@ -42,10 +42,13 @@ type Gen struct {
 	phase   int
 	setup   []Op
 	inBlock bool
+	justGen bool
+	started bool
 	Malformed int // percent
 	SimPct    int // percent of transactions that are only simulated
 	pendingReal *Op
 	seed0     uint64
+	scale     uint64 // multiplier of pledged / withdrawn capacity (histories with a large capacity threshold)
 }
 
 func NewGen(w *World, seed uint64, profile string) *Gen {
@@ -55,6 +58,10 @@ func NewGen(w *World, seed uint64, profile string) *Gen {
 		g.SimPct = 8
 	case "did":
 		g.SimPct = 18
+	}
+	g.scale = 1
+	if w.C.App.NodeKeeper.GetParams(w.C.Ctx()).VstorageThreshold >= 1<<30 {
+		g.scale = 4096
 	}
 	n := 3 + g.R.Intn(4)
 	for i := 1; i <= n; i++ {
@@ -294,6 +301,15 @@ func (g *Gen) Next() Op {
 	if op.Inner != nil {
 		pickCid(op.Inner)
 	}
+	scaleCap := func(o *Op) {
+		if g.scale > 1 && (o.K == "addv" || o.K == "remv") && o.Size < 200_000_000 {
+			o.Size *= g.scale
+		}
+	}
+	scaleCap(&op)
+	if op.Inner != nil {
+		scaleCap(op.Inner)
+	}
 	return op
 }
 
@@ -304,6 +320,13 @@ func (g *Gen) next() Op {
 		return op
 	}
 	if !g.inBlock {
+		// an export / import round trip happens between blocks, as on a real chain
+		if g.Profile == "genesis" && !g.justGen && g.started && g.R.Chance(22) {
+			g.justGen = true
+			return Op{K: "genesis"}
+		}
+		g.justGen = false
+		g.started = true
 		g.inBlock = true
 		g.phase = 0
 		return g.advance()
@@ -315,10 +338,6 @@ func (g *Gen) next() Op {
 	if g.phase >= 1+g.R.Intn(4) || g.phase > 4 {
 		g.inBlock = false
 		return Op{K: "end"}
-	}
-	if g.Profile == "genesis" && g.R.Chance(8) {
-		g.phase++
-		return Op{K: "genesis"}
 	}
 	g.phase++
 	if g.pendingReal != nil {
@@ -568,8 +587,8 @@ func (g *Gen) didTx() Op {
 			}
 		}
 		op := Op{K: "didupdate", Creator: creator, Sid: sid, KeyVer: 2 + r.Intn(50), Remove: rem, Update: upd, PastSeed: fmt.Sprintf("seed%d", r.Intn(4))}
-		if r.Chance(20) {
-			switch r.Intn(3) {
+		if r.Chance(25) {
+			switch r.Intn(4) {
 			case 0:
 				op.Tamper = "docid"
 			case 1:
@@ -577,6 +596,21 @@ func (g *Gen) didTx() Op {
 			case 2:
 				if len(op.Update) > 0 {
 					op.Update = op.Update[1:]
+				}
+			case 3:
+				// keep every own account and put an account of another identity on the remove list
+				for o := 1; o <= 3; o++ {
+					if o == sid {
+						continue
+					}
+					if al, found := k.GetAccountList(ctx, g.W.SidDid(o, 1)); found && len(al.AccountDids) > 0 {
+						var a int
+						if _, err := fmt.Sscanf(al.AccountDids[r.Intn(len(al.AccountDids))], "did:key:acct%d-of-", &a); err == nil {
+							op.Update, op.Remove = bound, nil
+							op.RemoveForeign, op.ForeignSid = []int{a}, o
+							break
+						}
+					}
 				}
 			}
 		}
@@ -831,7 +865,8 @@ func (g *Gen) tx() Op {
 		m := li.metas[r.Intn(len(li.metas))]
 		o := g.writerOf(m)
 		nc := g.newDataId()
-		op := Op{K: "store", Creator: gw, Provider: gw + 1, Signer: o + 1, Owner: o + 1, Duration: g.durations(), Replica: int32(1 + r.Intn(2)),
+		// replica counts up to and beyond the provider population: an update re-uses the holders and asks the selection for the rest
+		op := Op{K: "store", Creator: gw, Provider: gw + 1, Signer: o + 1, Owner: o + 1, Duration: g.durations(), Replica: int32([]int{1, 2, 1, 2, 3, 4, 5, 6}[r.Intn(8)]),
 			Timeout: int32(10 + r.Intn(200)), Alias: m.Alias, DataId: m.DataId, CommitId: m.Commit + "|" + nc, Size: uint64(1 + r.Intn(100000)), Operation: uint32(1 + r.Intn(2))}
 		if bad {
 			switch r.Intn(5) {
